@@ -185,6 +185,21 @@ func build(spec *checkSpec) (string, string) {
 	} else if out, err := run(dsim, nil, instBin, args...); err != nil {
 		die("instrumentation failed (does /repo compile?): %v\n%s", err, out)
 	}
+	if len(spec.ExtraOverlay) > 0 {
+		ovPath := filepath.Join(inst, "overlay.json")
+		var ov struct{ Replace map[string]string }
+		if b, err := os.ReadFile(ovPath); err == nil {
+			json.Unmarshal(b, &ov)
+		}
+		if ov.Replace == nil {
+			ov.Replace = map[string]string{}
+		}
+		for dst, src := range spec.ExtraOverlay {
+			ov.Replace[filepath.Join("/repo", dst)] = filepath.Join(dsim, src)
+		}
+		b, _ := json.MarshalIndent(ov, "", " ")
+		os.WriteFile(ovPath, b, 0o644)
+	}
 	bin := filepath.Join(bdir, "bin", spec.ID+"-"+spec.Harness+".test")
 	bargs := []string{"test", "-c", "-overlay", filepath.Join(inst, "overlay.json"), "-o", bin}
 	if spec.Race {
@@ -556,7 +571,7 @@ func (c *campaign) report(seed uint64, t0 time.Time) int {
 				setProperty(keep, c.spec.ID)
 				minOut := base + ".json"
 				final = keep
-				if handled <= 4 && v.Class != "panic" && v.Class != "crash" {
+				if handled <= 4 && gating && v.Class != "panic" && v.Class != "crash" {
 					cmd := exec.Command(c.bin, "-test.run", "^TestWorker$", "-test.timeout", "0")
 					cmd.Env = append(os.Environ(), "DSIM_MODE=minimise", "DSIM_FILE="+keep, "DSIM_MINOUT="+minOut, "DSIM_SITES="+c.sites, "GOMAXPROCS=2", "DSIM_SHM="+shmBase())
 					done := make(chan error, 1)
